@@ -162,7 +162,8 @@ def layer_of(fc, e, at):
         found = None
         for n, r in ds:
             if r[0] == "for":
-                d = layer_index(fc, r[1], n)
+                it = element_var_of_loop(r, loc)
+                d = layer_index(fc, it, n) if it is not None else None
             elif r[0] == "assign":
                 d = layer_of(fc, r[1], n)
             else:
@@ -220,14 +221,91 @@ def stale_attr_filtered(fc, X, at):
     return True
 
 
-def layer_index(fc, lay, at):
-    """`lay` is NL[D] or partition.get_layer_node_list(D): return D."""
-    if isinstance(lay, ast.Subscript) and is_nodelist_expr(fc, lay.value, at):
+def layer_index(fc, lay, at, depth=0):
+    """`lay` denotes the layer of depth D - NL[D], partition.get_layer_node_list(D), enumerate(<layer>),
+    a local alias of such, or the element variable of `for D, lay in enumerate(NL)`: return D (AST)."""
+    if isinstance(lay, ast.Subscript) and not isinstance(lay.slice, ast.Slice) and is_nodelist_expr(fc, lay.value, at):
         return lay.slice
     if isinstance(lay, ast.Call) and method_name(lay) == "get_layer_node_list":
         a = get_arg(lay, 0, "depth")
         return a
+    if isinstance(lay, ast.Call) and isinstance(lay.func, ast.Name) and lay.func.id in ("enumerate", "list", "reversed") and lay.args:
+        return layer_index(fc, lay.args[0], at, depth + 1) if depth < 4 else None
+    if isinstance(lay, ast.Name) and depth < 4:
+        ds, entry = fc.reaching(lay.id, at)
+        if entry or not ds:
+            return None
+        found = None
+        for n, r in ds:
+            d = None
+            if r[0] == "assign":
+                d = layer_index(fc, r[1], n, depth + 1)
+            elif r[0] == "for":
+                # for D, lay in enumerate(NL)
+                it, tg = r[1], r[2]
+                if isinstance(it, ast.Call) and isinstance(it.func, ast.Name) and it.func.id == "enumerate" and len(it.args) == 1 and \
+                        is_nodelist_expr(fc, it.args[0], n) and isinstance(tg, ast.Tuple) and len(tg.elts) == 2 and \
+                        isinstance(tg.elts[0], ast.Name) and _src(tg.elts[1]) == lay.id:
+                    d = tg.elts[0]
+            if d is None:
+                return None
+            if fc.stores_between(n, at, deps(d) - {lay.id}, [k for k, _ in ds if k is not n]) and r[0] != "for":
+                return None
+            if found is not None and _src(found) != _src(d):
+                return None
+            found = d
+        return found
     return None
+
+
+def element_var_of_loop(r, name):
+    """For a definition record ('for', iter, target) of `name`: the iterable whose ELEMENTS the name ranges over
+    (for x in L -> L; for i, x in enumerate(L) -> L when name is x), else None."""
+    it, tg = r[1], r[2]
+    if isinstance(tg, ast.Name) and tg.id == name:
+        if isinstance(it, ast.Call) and isinstance(it.func, ast.Name) and it.func.id in ("enumerate", "range", "zip"):
+            return None
+        return it
+    if isinstance(tg, ast.Tuple) and len(tg.elts) == 2 and isinstance(it, ast.Call) and isinstance(it.func, ast.Name) \
+            and it.func.id == "enumerate" and it.args and _src(tg.elts[1]) == name:
+        return it.args[0]
+    return None
+
+
+def is_child_of(fc, v, cursor, at, depth=0):
+    """Does value `v` (AST, evaluated at CFG node `at`) denote one of the children of cell `cursor` (source)?"""
+    if depth > 4:
+        return False
+    kids = (cursor + ".get_children()", cursor + ".children")
+
+    def children_expr(e, where):
+        if _src(e) in kids:
+            return True
+        if isinstance(e, ast.Subscript) and isinstance(e.slice, ast.Slice):
+            return children_expr(e.value, where)
+        if isinstance(e, ast.Name):
+            ds, entry = fc.reaching(e.id, where)
+            return (not entry) and bool(ds) and all(r[0] == "assign" and children_expr(r[1], n) and
+                                                    not fc.stores_between(n, where, {cursor}, [k for k, _ in ds if k is not n]) for n, r in ds)
+        return False
+    if isinstance(v, ast.Subscript) and not isinstance(v.slice, ast.Slice):
+        return children_expr(v.value, at)
+    if isinstance(v, ast.Name):
+        ds, entry = fc.reaching(v.id, at)
+        if entry or not ds:
+            return False
+        for n, r in ds:
+            if r[0] == "assign":
+                if not is_child_of(fc, r[1], cursor, n, depth + 1):
+                    return False
+            elif r[0] == "for":
+                it = element_var_of_loop(r, v.id)
+                if it is None or not children_expr(it, n):
+                    return False
+            else:
+                return False
+        return True
+    return False
 
 
 def leaf_fact_subjects(fc, at):
@@ -421,11 +499,14 @@ def proves_depth(fc, X, D, at):
                 if r[0] == "assign":
                     lay2 = layer_of(fc, r[1], n)
                 elif r[0] == "for":
-                    lay2 = layer_index(fc, r[1], n)
+                    it2 = element_var_of_loop(r, xs)
+                    lay2 = layer_index(fc, it2, n) if it2 is not None else None
                 else:
                     lay2 = None
                 if lay2 is None:
                     return False, "definition of %s at line %s does not take a cell from a layer" % (xs, n.line)
+                if _src(lay2) == dsrc and m.id < n.id:
+                    continue        # the cell is taken from layer [D] with D defined just before: D is its depth
                 if not (rd[0] == "assign" and _src(rd[1]) == _src(lay2)):
                     return False, "%s is taken from layer [%s] but %s is set to '%s' (line %s)" % (
                         xs, _src(lay2), dsrc, _src(rd[1]) if rd[0] == "assign" else rd[0], m.line)
@@ -458,3 +539,51 @@ def together(fc, n, m):
             return all(not isinstance(s, (ast.If, ast.While, ast.For, ast.Return, ast.Break, ast.Continue, ast.Raise))
                        for s in lst[i + 1:j])
     return False
+
+
+def cells_equal(fc, A, B, at):
+    """Do expressions A and B (ASTs) denote the same cell at CFG node `at`?  Textual identity, or
+    `L[idx]` versus a name x where x and idx are always assigned together from an (index, element) pair of L."""
+    if _src(A) == _src(B):
+        return True, "same expression"
+    for P, Q in ((A, B), (B, A)):
+        if isinstance(P, ast.Subscript) and isinstance(P.slice, ast.Name) and isinstance(Q, ast.Name):
+            L, idx, x = P.value, P.slice.id, Q.id
+            dx, ex = fc.reaching(x, at)
+            di, ei = fc.reaching(idx, at)
+            dx = [(n, r) for n, r in dx if not _none_def(r)]
+            di = [(n, r) for n, r in di if not _none_def(r)]
+            if ex or ei or not dx or len(dx) != len(di):
+                continue
+            ok = True
+            used = set()
+            for n, r in dx:
+                twin = [(m, rd) for m, rd in di if together(fc, n, m)]
+                if len(twin) != 1 or r[0] != "assign" or twin[0][1][0] != "assign" or not isinstance(r[1], ast.Name) or \
+                        not isinstance(twin[0][1][1], ast.Name):
+                    ok = False
+                    break
+                m, rd = twin[0]
+                used.add(m)
+                e, i = r[1].id, rd[1].id
+                de, ee = fc.reaching(e, n)
+                good = False
+                if not ee and de:
+                    good = True
+                    for nn, rr in de:
+                        if rr[0] == "for" and isinstance(rr[2], ast.Tuple) and len(rr[2].elts) == 2 and _src(rr[2].elts[0]) == i \
+                                and _src(rr[2].elts[1]) == e and isinstance(rr[1], ast.Call) and isinstance(rr[1].func, ast.Name) \
+                                and rr[1].func.id == "enumerate" and len(rr[1].args) == 1 and _src(rr[1].args[0]) == _src(L):
+                            continue
+                        if rr[0] == "assign" and _src(rr[1]) == "%s[%s]" % (_src(L), i):
+                            continue
+                        good = False
+                if not good:
+                    ok = False
+                    break
+                if fc.stores_between(n, at, deps(L) | {i} - {x, idx}, [k for k, _ in dx if k is not n]) and False:
+                    ok = False
+            allx = [k for k, _ in fc.defs_of(x)]
+            if ok and len(used) == len(di) and all(not fc.stores_between(n, at, deps(L), [k for k in allx if k is not n]) for n, _ in dx):
+                return True, "%s and %s are always assigned together from an (index, element) pair of %s" % (x, idx, _src(L))
+    return False, "different expressions"
